@@ -73,6 +73,23 @@ def classify_ops(fn, prov, field):
     return out
 
 
+def enq_value(fn, b):
+    """The element operand of an enqueue call: argument 1, or argument 2 for `insert(index, value)`."""
+    t = fn.term(b)
+    i = 2 if re.search(r"::insert$", t["callee"]) and len(t["args"]) > 2 else 1
+    return t["args"][i]
+
+
+def replay_ends(facts, prov, field):
+    """The end(s) of the overflow list from which send / force_send take parked commands."""
+    ends = set()
+    for name in ("send", "force_send"):
+        fn = facts.fn("%s::<T>::%s" % (SENDER, name))
+        if fn is not None:
+            ends |= {e for b, role, e, c in classify_ops(fn, prov, field) if role == "deq"}
+    return ends
+
+
 def ring_pushes(fn):
     return [b for b in fn.calls_re(r"rtrb::Producer::<T>::push$") if not fn.blocks[b]["cleanup"]]
 
@@ -205,10 +222,14 @@ def rule_sender_drop(ctx, facts, rule):
     ops = classify_ops(fn, prov, field)
     deq = [(b, end, c) for b, role, end, c in ops if role == "deq"]
     pushes = ring_pushes(fn)
-    fifo = bool(deq) and all(end == "front" for _, end, _ in deq)
+    # "oldest first" = starting at the end send / force_send replay from (the front, unless the list is kept the other way round)
+    D = replay_ends(facts, prov, field)
+    oldest_end = next(iter(D)) if len(D) == 1 and next(iter(D)) in ("front", "back") else "front"
+    whole = re.compile(r"::drain$|into_iter$|mem::take$")          # hands the whole list over, front to back
+    fifo = bool(deq) and all(end == oldest_end or whole.search(c) for _, end, c in deq)
     ctx.check(fifo, rule, fn.path, fn.span, "Drop takes the parked commands oldest first",
-              "dequeue ops %s" % [(c.split("::")[-1], e) for _, e, c in deq],
-              "dequeue ops %s (table: %s)" % ([(c.split("::")[-1], e) for _, e, c in deq], TABLE_TEXT), extra="fifo")
+              "dequeue ops %s, oldest end: %s" % ([(c.split("::")[-1], e) for _, e, c in deq], oldest_end),
+              "dequeue ops %s, oldest end %s (table: %s)" % ([(c.split("::")[-1], e) for _, e, c in deq], oldest_end, TABLE_TEXT), extra="fifo")
     fed = False
     for p in pushes:
         src = prov.of_operand(fn, fn.term(p)["args"][1])
@@ -237,8 +258,15 @@ def rule_sender_drop(ctx, facts, rule):
                 fed = True
                 pushes = pushes or [hb]
                 rev = rev or any(v[0] == "call" and re.search(r"Iterator>?::(rev|next_back|last)$|::(pop|pop_back)$", v[1]) for o in recv for v in o.via)
-    ctx.check(not rev, rule, fn.path, fn.span, "the flush keeps the parked order (no rev()/next_back()/pop())", "",
-              "the elements pushed at thread exit come through a reversing adaptor", extra="no-rev")
+    # a list handed over whole comes front to back: that is oldest first iff the replay end is the front; a list kept the other
+    # way round (replayed from the back) has to be reversed
+    uses_whole = any(whole.search(c) for _, _, c in deq)
+    want_rev = uses_whole and oldest_end == "back"
+    ctx.check(rev == want_rev if uses_whole else not rev or oldest_end == "back", rule, fn.path, fn.span,
+              "the flush keeps the parked order (oldest first: no rev()/next_back()/pop() on a list replayed from the front)",
+              "replay end %s, reversing adaptor: %s" % (oldest_end, rev),
+              "the elements pushed at thread exit come %s a reversing adaptor although send / force_send replay from the %s" % (
+                  "through" if rev else "without", oldest_end), extra="no-rev")
     ctx.check(fed, rule, fn.path, fn.span, "every parked command is pushed to the ring",
               "Producer::push fed from `%s`" % field,
               "no Producer::push in Drop receives elements of `%s`" % field, extra="push")
@@ -269,7 +297,7 @@ def rule_order(ctx, facts, rule):
         # classify enqueues by what they enqueue: the new value (param 2) or a dequeued element
         new_enq, re_enq = [], []
         for b, end, c in enq:
-            src = prov.of_operand(fn, fn.term(b)["args"][1])
+            src = prov.of_operand(fn, enq_value(fn, b))
             is_new = has_origin(src, kind="param", key=2)
             from_list = has_origin(src, kind="param", key=1, path_suffix=("." + field,))
             if is_new:
@@ -334,7 +362,7 @@ def rule_order(ctx, facts, rule):
         ops = classify_ops(fn, prov, field)
         ends[name] = sorted({e for b, role, e, c in ops if role == "deq"})
         for b, role, e, c in ops:
-            if role == "enq" and has_origin(prov.of_operand(fn, fn.term(b)["args"][1]), kind="param", key=2):
+            if role == "enq" and has_origin(prov.of_operand(fn, enq_value(fn, b)), kind="param", key=2):
                 parked.add(e)
     all_deq = {e for v in ends.values() for e in v}
     ctx.check(len(all_deq) == 1 and not (all_deq & parked) and bool(parked), rule + "a", SENDER, "-",
